@@ -24,7 +24,7 @@ TAG_SWARM = "C18/swarm"
 
 TIERS = {
     "quick": dict(enum_scenarios=12, stdio_sites=6, swarm=400, real_lli=12),
-    "thorough": dict(enum_scenarios=72, stdio_sites=40, swarm=30000, real_lli=200),
+    "thorough": dict(enum_scenarios=120, stdio_sites=40, swarm=80000, real_lli=300),
 }
 
 ESC = b"\x1b"
@@ -180,8 +180,11 @@ def make_scenario(rng, sub=None, input_kind=None, force=None):
                         sc["backend_args"] = ["-O3"]
                         cfg_lines.append('backend_args = "-O3"')
                     if not sc["link_args"] and rng.random() < 0.3:
-                        sc["link_args"] = ["-lz"]
-                        cfg_lines.append('link_args = "-lz"')
+                        sc["link_args"] = rng.choice([["-lz"], ["--gc-sections", "--as-needed"]])
+                        cfg_lines.append('link_args = "%s"' % " ".join(sc["link_args"]))
+                    if not sc["wasm"] and rng.random() < 0.15:
+                        sc["wasm"] = True
+                        cfg_lines.append("wasm = true")
                     sc["files"]["penne.toml"] = ("\n".join(cfg_lines) + "\n").encode()
                 elif cfg_variant == "malformed":
                     sc["files"]["penne.toml"] = b"backend = [unterminated\n"
